@@ -185,11 +185,17 @@ func (m *model) onCycle(s string) bool {
 
 func gen(r *simrt.RNG) Workload {
 	n := 1 + r.Intn(5)
+	maxCalls := 4
+	if r.Intn(20) == 0 {
+		// occasionally a large set: thresholds on counts (more than 8 scripts, many calls per script)
+		n = 6 + r.Intn(4)
+		maxCalls = 5
+	}
 	names := make([]string, n)
 	for i := range names {
 		names[i] = fmt.Sprintf("s%d.p", i)
 	}
-	if r.Intn(4) == 0 {
+	if r.Intn(4) == 0 && n <= 10 {
 		// near-colliding names: prefixes, case, extensions, path-like names
 		pool := []string{"s1.p", "s10.p", "S1.p", "s1.ppl", "s1.p.p", "a.p", "ab.p", "lib/a.p", "zz.p1", "s1"}
 		for i := range names {
@@ -212,7 +218,7 @@ func gen(r *simrt.RNG) Workload {
 				s.Kind = "check_err"
 			}
 		}
-		nc := r.Intn(4)
+		nc := r.Intn(maxCalls)
 		for j := 0; j < nc; j++ {
 			var t string
 			switch {
@@ -278,7 +284,7 @@ func (Prop) Run(p *core.Plan) *core.Result {
 		return &core.Result{Infra: "bad workload: " + err.Error()}
 	}
 	res := &core.Result{Faults: map[string]int{}, Probes: map[string]int{}}
-	world := core.BeginWorld(p, 2000000, false)
+	world := core.BeginWorld(p, 40000000, false)
 	defer func() {
 		res.Recorded = simrt.End()
 		res.Events = world.Events
